@@ -6,7 +6,6 @@ import (
 	"encoding/json"
 	"fmt"
 	"math/big"
-	"runtime"
 	"sort"
 	"strings"
 	"sync"
@@ -26,7 +25,31 @@ import (
 	"verifh/kit/vio"
 )
 
-const ethChain = uint64(2)
+// sandboxes are expensive to make (goleveldb and the overlay pre-allocate megabytes), so each one is reused: every
+// world gets a chain id of its own inside a pooled sandbox (all header-sync keys carry the chain id).
+type pooled struct {
+	sb   *nativekit.Sandbox
+	next uint64
+}
+
+var sbPool = make(chan *pooled, 256)
+
+func getSandbox() *pooled {
+	select {
+	case p := <-sbPool:
+		return p
+	default:
+		p := &pooled{sb: nativekit.New(), next: 2}
+		p.sb.SeedValidators([]*account.Account{operator()}, 1)
+		return p
+	}
+}
+func (w *world) release() {
+	select {
+	case sbPool <- w.pl:
+	default:
+	}
+}
 
 var (
 	opOnce sync.Once
@@ -41,6 +64,8 @@ func operator() *account.Account {
 // world = one contract-storage universe with an installed trust root and a universe of synthetic headers.
 type world struct {
 	sb   *nativekit.Sandbox
+	pl   *pooled
+	ch   uint64        // chain id of this world
 	hdrs []*eth.Header // by id, 0 = trust root
 	ids  map[ecommon.Hash]int
 	dgs  map[string]int // interned storage digests
@@ -55,9 +80,10 @@ func genesisHandler(ns *native.NativeService) ([]byte, error) {
 }
 
 func newWorld(rng *vio.RNG, d0 int64) (*world, error) {
-	w := &world{sb: nativekit.New(), ids: map[ecommon.Hash]int{}, dgs: map[string]int{}, rng: rng}
+	pl := getSandbox()
+	w := &world{sb: pl.sb, pl: pl, ch: pl.next, ids: map[ecommon.Hash]int{}, dgs: map[string]int{}, rng: rng}
+	pl.next++
 	op := operator()
-	w.sb.SeedValidators([]*account.Account{op}, 1)
 	base := uint64(time.Now().Unix()) - 3000000 - uint64(rng.Intn(1000000))
 	// numbers far below the first bomb period of the pre-London rule (parent number < 9 199 999): no bomb term
 	num := int64(1000 + rng.Intn(8000000))
@@ -67,7 +93,7 @@ func newWorld(rng *vio.RNG, d0 int64) (*world, error) {
 		g.UncleHash = ecommon.Hash{0xee}
 	}
 	gb, _ := json.Marshal(g)
-	p := &hscom.SyncGenesisHeaderParam{ChainID: ethChain, GenesisHeader: gb}
+	p := &hscom.SyncGenesisHeaderParam{ChainID: w.ch, GenesisHeader: gb}
 	sink := common.NewZeroCopySink(nil)
 	p.Serialization(sink)
 	if _, _, err := w.sb.Call(genesisHandler, nativekit.Tx(op.Address), sink.Bytes()); err != nil {
@@ -131,7 +157,7 @@ func (w *world) submit(hs ...*eth.Header) (err error, panicked string) {
 		hb = append(hb, b)
 	}
 	op := operator()
-	sp := &hscom.SyncBlockHeaderParam{ChainID: ethChain, Address: op.Address, Headers: hb}
+	sp := &hscom.SyncBlockHeaderParam{ChainID: w.ch, Address: op.Address, Headers: hb}
 	s := common.NewZeroCopySink(nil)
 	sp.Serialization(s)
 	panicked = vio.Safe(func() { _, _, err = w.sb.Call(syncHandler, nativekit.Tx(op.Address), s.Bytes()) })
@@ -144,7 +170,14 @@ func (w *world) submit(hs ...*eth.Header) (err error, panicked string) {
 
 // digest of the whole header-sync contract storage, interned to a small integer
 func (w *world) digest() int {
-	d := w.sb.DumpContract(utils.HeaderSyncContractAddress)
+	d := map[string]string{}
+	for _, name := range []string{hscom.GENESIS_HEADER, hscom.HEADER_INDEX, hscom.MAIN_CHAIN, hscom.CURRENT_HEADER_HEIGHT} {
+		it := w.sb.Cache.NewIterator(utils.ConcatKey(utils.HeaderSyncContractAddress, []byte(name), utils.GetUint64Bytes(w.ch)))
+		for ok := it.First(); ok; ok = it.Next() {
+			d[string(it.Key())] = string(it.Value())
+		}
+		it.Release()
+	}
 	ks := make([]string, 0, len(d))
 	for k := range d {
 		ks = append(ks, k)
@@ -194,7 +227,7 @@ func (w *world) observe(span int) (*obsT, error) {
 	rootNum := w.hdrs[0].Number.Int64()
 	for id, h := range w.hdrs {
 		hash := h.Hash()
-		ex, err := eth.IsHeaderExist(ns, hash.Bytes(), ethChain)
+		ex, err := eth.IsHeaderExist(ns, hash.Bytes(), w.ch)
 		if err != nil {
 			return nil, err
 		}
@@ -206,7 +239,7 @@ func (w *world) observe(span int) (*obsT, error) {
 			o.Td = append(o.Td, 0)
 			continue
 		}
-		sh, td, err := eth.GetHeaderByHash(ns, hash.Bytes(), ethChain)
+		sh, td, err := eth.GetHeaderByHash(ns, hash.Bytes(), w.ch)
 		if err != nil {
 			return nil, fmt.Errorf("GetHeaderByHash of an existing header: %v", err)
 		}
@@ -219,13 +252,13 @@ func (w *world) observe(span int) (*obsT, error) {
 		}
 		o.Td = append(o.Td, td.Int64())
 	}
-	hh, err := eth.GetCurrentHeaderHeight(ns, ethChain)
+	hh, err := eth.GetCurrentHeaderHeight(ns, w.ch)
 	if err != nil {
 		return nil, err
 	}
 	o.Head = int64(hh)
 	for y := rootNum; y <= int64(hh); y++ {
-		mh, _, err := eth.GetHeaderByHeight(ns, uint64(y), ethChain)
+		mh, _, err := eth.GetHeaderByHeight(ns, uint64(y), w.ch)
 		if err != nil {
 			o.Main = append(o.Main, -1)
 			continue
@@ -233,13 +266,13 @@ func (w *world) observe(span int) (*obsT, error) {
 		o.Main = append(o.Main, w.idOf(mh.Hash()))
 	}
 	// the head as GetCurrentHeader reports it must be the entry at the current height
-	if ch, _, err := eth.GetCurrentHeader(ns, ethChain); err == nil && len(o.Main) > 0 {
+	if ch, _, err := eth.GetCurrentHeader(ns, w.ch); err == nil && len(o.Main) > 0 {
 		if w.idOf(ch.Hash()) != o.Main[len(o.Main)-1] {
 			o.Main[len(o.Main)-1] = -3
 		}
 	}
 	for y := int64(hh) + 1; y <= rootNum+int64(span); y++ {
-		raw, _ := w.sb.Cache.Get(utils.ConcatKey(utils.HeaderSyncContractAddress, []byte(hscom.MAIN_CHAIN), utils.GetUint64Bytes(ethChain), utils.GetUint64Bytes(uint64(y))))
+		raw, _ := w.sb.Cache.Get(utils.ConcatKey(utils.HeaderSyncContractAddress, []byte(hscom.MAIN_CHAIN), utils.GetUint64Bytes(w.ch), utils.GetUint64Bytes(uint64(y))))
 		if raw == nil {
 			o.Stale = append(o.Stale, -1)
 			continue
@@ -323,9 +356,9 @@ func powReplay() {
 	lines := vio.ReadLines()
 	var mu sync.Mutex
 	distinct := map[string]bool{}
-	calls, mism, reorgs := 0, 0, 0
+	calls, mism, reorgs, downs := 0, 0, 0, 0
 	seed := vio.Seed()
-	vio.ParMap(len(lines), runtime.NumCPU(), func(i int) {
+	vio.ParMap(len(lines), workers(), func(i int) {
 		if !strings.Contains(string(lines[i][:minInt(40, len(lines[i]))]), "{") {
 			return
 		}
@@ -334,10 +367,11 @@ func powReplay() {
 			vio.Fatal("bad behaviour line %d: %v", i, err)
 		}
 		rng := vio.NewRNG(seed*1000003 + uint64(i))
-		m, c, sig, ro := replayOne(b, rng)
+		m, c, sig, ro, dn := replayOne(b, rng)
 		mu.Lock()
 		calls += c
 		reorgs += ro
+		downs += dn
 		for _, s := range sig {
 			distinct[s] = true
 		}
@@ -351,7 +385,7 @@ func powReplay() {
 		mu.Unlock()
 	})
 	vio.Emit(map[string]interface{}{"summary": true, "behaviours": len(lines), "calls": calls, "mismatches": mism,
-		"distinct": len(distinct), "reorgs": reorgs})
+		"distinct": len(distinct), "reorgs": reorgs, "reorgs_down": downs})
 }
 
 func minInt(a, b int) int {
@@ -363,11 +397,12 @@ func minInt(a, b int) int {
 
 // replayOne runs one behaviour on a fresh contract store. Every call is recorded as a monitor event; the first
 // difference from the prediction is reported (the rest of the behaviour is still executed and recorded).
-func replayOne(b *behaviour, rng *vio.RNG) (mm *mismatch, calls int, sigs []string, reorgs int) {
+func replayOne(b *behaviour, rng *vio.RNG) (mm *mismatch, calls int, sigs []string, reorgs, downs int) {
 	w, err := newWorld(rng, b.D0)
 	if err != nil {
 		vio.Fatal("%v", err)
 	}
+	defer w.release()
 	// the universe: header i is a child of par[i] with the difficulty the model computed
 	for i := 1; i <= b.N; i++ {
 		w.add(w.child(b.Par[i-1], b.Adj[i-1], b.Diff[i-1], 0))
@@ -464,20 +499,27 @@ func replayOne(b *behaviour, rng *vio.RNG) (mm *mismatch, calls int, sigs []stri
 				}
 			}
 		}
-		// classify the step for the coverage count
+		// classify the step (by the model's prediction) for the coverage count
 		kind := "side"
-		if len(o.Main) > 0 && o.Main[len(o.Main)-1] == h {
+		if st.Main[st.Hh] == h {
 			kind = "append"
-			if len(before.Main) > 0 && before.Main[len(before.Main)-1] != b.Par[h-1] {
+			prevH, prevHead := 0, 0
+			if k > 0 {
+				prevH = b.Steps[k-1].Hh
+				prevHead = b.Steps[k-1].Main[prevH]
+			}
+			if prevHead != b.Par[h-1] {
 				kind = "reorg"
-				if o.Head < before.Head {
+				if st.Hh < prevH {
 					kind = "reorg-down"
-				} else if o.Head == before.Head {
+					downs++
+				} else if st.Hh == prevH {
 					kind = "reorg-level"
 				}
 				reorgs++
 			}
 		}
+		_ = before
 		if kind != "append" {
 			sigs = append(sigs, fmt.Sprintf("S|%v|%v|%s", b.Par[:h], b.Adj[:h], kind))
 		}
